@@ -37,7 +37,7 @@ func (l *racingLog) tick() {
 	}
 }
 func (l *racingLog) Heads() logiface.IPFSLogOrderedEntries      { l.tick(); return l.Log.Heads() }
-func (l *racingLog) Len() int                                { l.tick(); return l.Log.Len() }
+func (l *racingLog) Len() int                                   { l.tick(); return l.Log.Len() }
 func (l *racingLog) GetEntries() logiface.IPFSLogOrderedEntries { l.tick(); return l.Log.GetEntries() }
 func (l *racingLog) Values() logiface.IPFSLogOrderedEntries     { l.tick(); return l.Log.Values() }
 
